@@ -428,7 +428,9 @@ fn occupancy_class(prev: &[u8], total: i32) -> &'static str {
 /// its x position is that column's position.
 fn column_oracle(run: &mut Run, id: &str, total: i32, patterns: &[Vec<Note>], what: &str) {
     for n in patterns.iter().flatten() {
-        if n.column >= total as usize {
+        // `ManiaObject::column` clamps to the last column, so the bound is checked on the position:
+        // a generated x is `ceil(column * 512 / total)`, which is below 512 exactly for columns below total
+        if n.column >= total as usize || !(0.0..512.0).contains(&n.x) {
             run.fail("oracle:mania-generator-column", "", id, format!("note {n:?} of {total} keys"), what.to_owned());
         }
     }
